@@ -570,15 +570,22 @@ func c14SplitAt(stream []byte, sizes []int) [][]byte {
 	return out
 }
 
+// c14Sink is a QUEUEING chunk sink, like the real one: transport's job.AddChunk
+// puts the pb.Chunk VALUE on a channel and another goroutine marshals and
+// sends it later, while the state machine keeps writing. Receive therefore
+// keeps the chunk as handed over (Data slice NOT copied) next to a snapshot of
+// its bytes at that moment; the queue is consumed only after the writer was
+// closed (c14StreamChunks). A writer that keeps using a buffer it has handed
+// to the sink is exposed by that.
 type c14Sink struct {
-	chunks []pb.Chunk
+	chunks []pb.Chunk // as handed over, consumed after Close
+	atRecv [][]byte   // the chunk bytes at the time of Receive
 	closed int
 }
 
 func (s *c14Sink) Receive(c pb.Chunk) (bool, bool) {
-	cp := c
-	cp.Data = append([]byte(nil), c.Data...)
-	s.chunks = append(s.chunks, cp)
+	s.chunks = append(s.chunks, c)
+	s.atRecv = append(s.atRecv, append([]byte(nil), c.Data...))
 	return true, false
 }
 func (s *c14Sink) Close() error        { s.closed++; return nil }
@@ -586,30 +593,40 @@ func (s *c14Sink) ShardID() uint64     { return 1 }
 func (s *c14Sink) ToReplicaID() uint64 { return 2 }
 
 // c14StreamChunks produces the chunk stream of the streaming path the way
-// snapshotter.Stream does: Compressor <- ChunkWriter <- sink.
-func c14StreamChunks(cfg c14Cfg, payload []byte, cuts []int) ([][]byte, []pb.Chunk, error) {
+// snapshotter.Stream does: Compressor <- ChunkWriter <- sink, and returns what
+// a consumer of the queue sees AFTER the writer was closed (the bytes the real
+// transport job would put on the wire). changed describes the first queued
+// chunk whose bytes are no longer what they were when it was handed over.
+func c14StreamChunks(cfg c14Cfg, payload []byte, cuts []int) (data [][]byte, meta []pb.Chunk, changed string, err error) {
 	sink := &c14Sink{}
-	meta := SSMeta{From: 1, Index: 100, Term: 5, CompressionType: cfg.ct()}
-	cw := dio.NewCompressor(cfg.ct(), NewChunkWriter(sink, meta))
+	m := SSMeta{From: 1, Index: 100, Term: 5, CompressionType: cfg.ct()}
+	cw := dio.NewCompressor(cfg.ct(), NewChunkWriter(sink, m))
 	off := 0
 	for _, c := range cuts {
 		n, err := cw.Write(payload[off : off+c])
 		if err != nil || n != c {
-			return nil, nil, fmt.Errorf("write %d: n=%d err=%v", c, n, err)
+			return nil, nil, "", fmt.Errorf("write %d: n=%d err=%v", c, n, err)
 		}
 		off += c
 	}
 	if err := cw.Close(); err != nil {
-		return nil, nil, err
+		return nil, nil, "", err
 	}
 	if sink.closed != 1 {
-		return nil, nil, fmt.Errorf("sink closed %d times", sink.closed)
+		return nil, nil, "", fmt.Errorf("sink closed %d times", sink.closed)
 	}
-	var out [][]byte
-	for _, c := range sink.chunks {
-		out = append(out, c.Data)
+	// the queue is consumed now, after Close: wire copy of every chunk
+	for i, c := range sink.chunks {
+		d := append([]byte(nil), c.Data...)
+		if changed == "" && !bytes.Equal(d, sink.atRecv[i]) {
+			changed = fmt.Sprintf("chunk %d of %d (%d bytes): its bytes differ from offset %d on from what they were when Receive() got it - the writer kept using the buffer it handed to the sink",
+				i, len(sink.chunks), len(d), c14FirstDiff(d, sink.atRecv[i]))
+		}
+		c.Data = d
+		data = append(data, d)
+		meta = append(meta, c)
 	}
-	return out, sink.chunks, nil
+	return data, meta, changed, nil
 }
 
 // ---------------------------------------------------------------- part 1: round trip
@@ -800,12 +817,21 @@ func c14RoundtripCase(fs vfs.IFS, res *verifkit.Result, cfg c14Cfg, wc []int, rb
 	// streaming path (always v2): same write cuts through the ChunkWriter
 	if cfg.V == 2 {
 		res.Evaluations++
-		chunks, meta, err := c14StreamChunks(cfg, payload, wc)
+		chunks, meta, changed, err := c14StreamChunks(cfg, payload, wc)
 		if err != nil {
 			if viol("stream-write-failed", err.Error(), nil) {
 				return true
 			}
 		} else {
+			if changed != "" {
+				// everything below judges the queued (post-Close) bytes as well
+				if viol("chunkwriter-chunk-changed-after-receive", changed, nil) {
+					return true
+				}
+			}
+			if len(chunks) >= 4 {
+				res.Outcome(fmt.Sprintf("chunkwriter-queued-stream:%d-data-chunks", len(chunks)-2))
+			}
 			if ok, how := c14Validate(chunks); !ok {
 				if viol("validator-rejects-clean-chunkwriter-stream", how, nil) {
 					return true
@@ -1113,9 +1139,12 @@ func c14Streams(fs vfs.IFS, cfg c14Cfg, hdr string) ([]c14Stream, []byte, error)
 	}
 	out = append(out, c14Stream{kind: "file", bytes: orig, sizes: sizes, regs: c14Regions(orig, cfg.V)})
 	if cfg.V == 2 {
-		chunks, _, err := c14StreamChunks(cfg, payload, c14CanonCuts(cfg.Len))
+		chunks, _, changed, err := c14StreamChunks(cfg, payload, c14CanonCuts(cfg.Len))
 		if err != nil {
 			return nil, nil, err
+		}
+		if changed != "" {
+			return nil, nil, fmt.Errorf("chunkwriter stream: %s", changed)
 		}
 		all := bytes.Join(chunks, nil)
 		sizes = nil
@@ -1164,7 +1193,8 @@ func TestVerifC14Stream(t *testing.T) {
 		run.LoadReplay(&rp)
 		streams, payload, err := c14Streams(fs, rp.Cfg, "")
 		if err != nil {
-			t.Fatal(err)
+			res.Violate("C14:stream:write-failed", rp.Cfg.String()+": "+err.Error(), rp)
+			return
 		}
 		for _, s := range streams {
 			if s.kind != rp.Kind {
